@@ -20,6 +20,7 @@ from .core import seams, snapshot
 from .core.world import Violation, HarnessError
 from . import files
 from .refcodec import camx, icartt
+from .refcodec import bpch as bpchcodec
 
 NAME = 'hist'
 PROPERTIES = ['C15']
@@ -35,6 +36,11 @@ KINDS = {
     'nc4': (['nc', 'nc4'], 'netcdf', True),
     'ioapi_nc': (['ncf', 'nc', 'ioapi'], 'ioapi', True),
     'temperature': (['temperature'], None, False),
+    'cloud_rain': (['cloud_rain', 'cr'], None, False),
+    'wind': (['wind'], None, False),
+    'height_pressure': (['height_pressure', 'zp'], None, False),
+    'bpch': (['bpch'], None, False),
+    'landuse': (['landuse', 'lu'], None, False),
     'usr': (['usr'], None, False),
     'garbage': (['txt', 'dat'], None, False),
     'empty': (['bin'], None, False),
@@ -47,8 +53,9 @@ USR_MAGIC = b'USR1'
 
 def gen_config(rng, tier):
     kinds = rng.sample(['uamiv', 'boundary', 'one3d', 'icartt', 'nc3', 'nc4',
-                        'ioapi_nc', 'temperature', 'usr', 'garbage', 'empty'],
-                       rng.randrange(3, 7))
+                        'ioapi_nc', 'temperature', 'usr', 'garbage', 'empty',
+                        'cloud_rain', 'wind', 'height_pressure', 'bpch', 'landuse'],
+                       rng.randrange(3, 8))
     for must in rng.sample(['uamiv', 'one3d', 'nc3', 'icartt', 'ioapi_nc'], 2):
         if must not in kinds:
             kinds.append(must)
@@ -259,6 +266,14 @@ def _mkspec(rng, kind):
                 'nx': rng.randrange(3, 6), 'ny': rng.randrange(3, 6),
                 'nz': rng.randrange(1, 3), 'nt': rng.randrange(1, 3),
                 'sdate': 2002154, 'stime': 0.}
+    if kind in ('cloud_rain', 'wind', 'height_pressure', 'landuse'):
+        return {'kind': kind, 'nx': rng.randrange(2, 5), 'ny': rng.randrange(2, 5),
+                'nz': rng.randrange(2, 4), 'nt': rng.randrange(2, 4),
+                'sdate': 2002154, 'stime': 0., 'nland': 11,
+                'extra': rng.choice([[], ['LAI', 'TOPO']])}
+    if kind == 'bpch':
+        return {'nt': rng.randrange(1, 3), 'ni': rng.randrange(1, 4), 'nj': rng.randrange(1, 4),
+                'nl': rng.randrange(1, 3)}
     if kind in ('one3d', 'temperature'):
         return {'kind': 'humidity' if kind == 'one3d' else 'temperature',
                 'nx': rng.randrange(2, 5), 'ny': rng.randrange(2, 5),
@@ -287,6 +302,31 @@ def _write(kind, spec, path):
     elif kind in ('one3d', 'temperature'):
         b, _ = camx.encode_met(camx.met_from_spec(spec))
         open(path, 'wb').write(b)
+    elif kind in ('wind', 'height_pressure'):
+        b, _ = camx.encode_met(camx.met_from_spec(spec))
+        open(path, 'wb').write(b)
+    elif kind == 'cloud_rain':
+        b, _ = camx.encode_cloud_rain(camx.cloud_rain_from_spec(spec))
+        open(path, 'wb').write(b)
+    elif kind == 'landuse':
+        b, _ = camx.encode_landuse(camx.landuse_from_spec(spec))
+        open(path, 'wb').write(b)
+    elif kind == 'bpch':
+        times = []
+        for t in range(spec['nt']):
+            a = (np.arange(spec['nl'] * spec['nj'] * spec['ni'], dtype='f4') + 1 + 100 * t
+                 ).reshape(spec['nl'], spec['nj'], spec['ni']) * 1e-9
+            times.append([{'category': 'IJ-AVG-$', 'tracer': 1, 'unit': 'v/v', 'tau0': 100. + t,
+                           'tau1': 101. + t, 'start': (3, 4, 1), 'data': a}])
+        b, _ = bpchcodec.encode({'modelname': 'GEOS5_47L', 'modelres': (5.0, 4.0),
+                                 'halfpolar': 1, 'center180': 1, 'times': times})
+        open(path, 'wb').write(b)
+        d = os.path.dirname(path)
+        if not os.path.exists(os.path.join(d, 'tracerinfo.dat')):
+            open(os.path.join(d, 'tracerinfo.dat'), 'w').write(bpchcodec.tracerinfo_text(
+                [{'name': 'O3', 'id': 1, 'scale': 1e9, 'unit': 'ppbv'}]))
+            open(os.path.join(d, 'diaginfo.dat'), 'w').write(bpchcodec.diaginfo_text(
+                [{'offset': 0, 'category': 'IJ-AVG-$', 'comment': 'stub'}]))
     elif kind == 'icartt':
         open(path, 'wb').write(icartt.encode(icartt.doc_from_spec(spec)))
     elif kind == 'nc3':
